@@ -18,7 +18,15 @@ import (
 type Interpreter struct {
 	globals   *environment.Environment
 	callDepth int // user-function calls in progress (see maxCallDepth)
+	evalDepth int // nested eval invocations in progress (see maxEvalDepth)
 }
+
+// maxEvalDepth bounds how deeply eval may nest. The call-depth limit alone does
+// not bound the Go stack: one call costs as many eval frames as its body's
+// expressions are nested, so runaway recursion through a deeply nested body still
+// overflowed the Go stack (an unrecoverable runtime abort) long before 50000
+// calls. 250000 nested evaluations stay well inside the Go stack limit.
+const maxEvalDepth = 250000
 
 type ControlFlowSignal struct {
 	Type       int
@@ -98,6 +106,16 @@ func (i *Interpreter) eval(expr ast.Expr, env *environment.Environment, isRepl b
 	// Once a runtime error has been reported nothing more is evaluated: every
 	// enclosing construct (loop, branch, call, function body, literal) unwinds.
 	if utils.HadRuntimeError {
+		return nil, &ControlFlowSignal{Type: ControlFlowNone, LineNumber: 0}
+	}
+	i.evalDepth++
+	defer func() { i.evalDepth-- }()
+	if i.evalDepth > maxEvalDepth {
+		line := getLineNumber(expr)
+		if call, ok := expr.(*ast.Call); ok {
+			line = call.Paren.Line
+		}
+		utils.RuntimeError(token.Token{Line: line}, fmt.Sprintf("stack overflow: evaluation nested more than %d levels deep", maxEvalDepth))
 		return nil, &ControlFlowSignal{Type: ControlFlowNone, LineNumber: 0}
 	}
 	switch e := expr.(type) {
